@@ -96,7 +96,7 @@ pub proof fn lemma_fifo_window_is_wnd<T, OT>(h: Seq<Call<T, OT>>, x: Seq<T>, win
 pub open spec fn pw(v: Option<real>, k: int) -> real {
     match v {
         None => 0real,
-        Some(x) => if k == 1 { x } else if k == 2 { x * x } else if k == 3 { x * x * x } else { x * x * x * x },
+        Some(x) => if k == 1 { x } else if k == 2 { x * x } else if k == 3 { x * x * x } else { (x * x) * (x * x) },
     }
 }
 pub open spec fn cv(v: Option<real>) -> int { if v.is_some() { 1 } else { 0 } }
